@@ -295,16 +295,16 @@ theorem inv_doRemoveReader (r : Nat) (w : W) (h : Inv w.s) (hc : w.s.closed = fa
 
 theorem subErrCleanup_s (w : W) : (subErrCleanup w).s =
     { w.s with
-      hkOnline := if w.s.conf.subErrTeardown = true ∧ w.s.conf.alwaysAvailable = false then false else w.s.hkOnline,
-      readers := if w.s.conf.subErrTeardown = true ∧ w.s.conf.alwaysAvailable = false then [] else w.s.readers,
-      hkAvail := if w.s.conf.subErrTeardown = true ∧ w.s.conf.alwaysAvailable = false then false else w.s.hkAvail,
-      stream := if w.s.conf.subErrTeardown = true ∧ w.s.conf.alwaysAvailable = false then none else w.s.stream,
-      panicked := if w.s.conf.subErrTeardown = true ∧ w.s.conf.alwaysAvailable = false
-                  then (w.s.panicked || !w.s.hkAvail) else w.s.panicked } := by
+      hkOnline := if w.s.conf.alwaysAvailable then w.s.hkOnline else false,
+      readers := if w.s.conf.alwaysAvailable then w.s.readers else [],
+      hkAvail := if w.s.conf.alwaysAvailable then w.s.hkAvail else false,
+      stream := if w.s.conf.alwaysAvailable then w.s.stream else none,
+      panicked := if w.s.conf.alwaysAvailable then w.s.panicked else (w.s.panicked || !w.s.hkAvail) } := by
   unfold subErrCleanup
   rcases w with ⟨s, o⟩
-  by_cases h1 : s.conf.subErrTeardown = true <;> by_cases h2 : s.conf.alwaysAvailable = true <;>
-    simp_all [setNotAvailable_s]
+  by_cases h2 : s.conf.alwaysAvailable = true
+  · cases s; simp_all
+  · simp_all [setNotAvailable_s]
 
 theorem newSub_s (w : W) : (newSub w).s = { w.s with
     nextSub := w.s.nextSub + 1,
